@@ -106,7 +106,7 @@ PROPS = {
         "stub": ["rustc: an in-process stub writes RLIB\\0 + sha256(component source, path-free flags) to the -o path",
                  "rayon pool: replaced by the park-and-release scheduler (width knob 1/2/4/all)"],
         "assumptions": [
-            "process death = unwinding panic at a seam call; build.rs holds no guard that touches the disk on unwind",
+            "process death = unwinding panic at a seam call; build.rs holds no guard that touches the disk on unwind; validated on every run against abort() in a child process at the same seam call (probes hard_kill_*)",
             "no power-loss faults (lost unsynced writes): the property speaks of killed builds",
             "a surviving build that fails or panics is not judged (the property speaks of builds that report success); counted in counters",
         ],
